@@ -74,6 +74,17 @@ def _prefix_suffix(is_prefix):
     return f
 
 
+def _remove_affix(is_prefix):
+    def f(it, a, k, n):
+        s = a[0]
+        x = _other(it, s, a[1], n)
+        ls, lx = z3.Length(s.z), z3.Length(x.z)
+        if is_prefix:
+            return VStr(z3.If(z3.PrefixOf(x.z, s.z), z3.SubString(s.z, lx, ls - lx), s.z), s.kind)
+        return VStr(z3.If(z3.SuffixOf(x.z, s.z), z3.SubString(s.z, 0, ls - lx), s.z), s.kind)
+    return f
+
+
 def _find(it, a, k, n):
     s = a[0]
     sub = _other(it, s, a[1], n)
@@ -485,6 +496,7 @@ def _format(it, a, k, n):
 
 _METHODS = {
     "startswith": _prefix_suffix(True), "endswith": _prefix_suffix(False), "find": _find, "rfind": _rfind,
+    "removeprefix": _remove_affix(True), "removesuffix": _remove_affix(False),
     "index": _index, "rindex": _rindex, "partition": _partition, "rpartition": _rpartition,
     "strip": _strip(True, True), "lstrip": _strip(True, False), "rstrip": _strip(False, True),
     "lower": _fold(LOWER, lambda s: s.lower()), "upper": _fold(UPPER, lambda s: s.upper()),
